@@ -45,7 +45,7 @@ type WithUnexported struct {
 
 type ValRecv struct{ N int }
 
-func (v ValRecv) Get() int     { return v.N }
+func (v ValRecv) Get() int       { return v.N }
 func (v ValRecv) String() string { return fmt.Sprintf("ValRecv(%d)", v.N) }
 
 type PtrRecv struct{ N int }
